@@ -282,7 +282,7 @@ func loadProgram(hfs []*HarnessFile) (*Program, map[string]*ssa.Package, error) 
 // ---------- package initialisation ----------
 
 var initAllowStd = map[string]bool{"errors": true, "io": true, "bytes": true, "strings": true, "strconv": true, "unicode/utf8": true, "math/bits": true, "math": true, "sort": true,
-	"bufio": true, "path/filepath": true, "container/list": true, "path": true, "internal/itoa": true, "time": true, "unicode": false, "slices": true, "cmp": true, "hash/crc32": false}
+	"bufio": true, "path/filepath": true, "container/list": true, "path": true, "internal/itoa": true, "context": true, "time": true, "unicode": false, "slices": true, "cmp": true, "hash/crc32": false}
 
 func (P *Program) initAllowed(pkg *ssa.Package) bool {
 	path := pkg.Pkg.Path()
